@@ -58,6 +58,11 @@ void AssembleAction::onFinal()
 // SerialAssembleAction
 //////////////////////////
 
+SerialAssembleAction::~SerialAssembleAction()
+{
+    cancelChildFinishReplay();
+}
+
 bool SerialAssembleAction::startThisAction(Action *action)
 {
     if (action->start()) {
@@ -73,6 +78,15 @@ void SerialAssembleAction::stopCurrAction()
     if (curr_action_ != nullptr) {
         curr_action_->stop();
         curr_action_ = nullptr;
+    }
+}
+
+//! 撤消已派发但还没执行的finish事件重放任务
+void SerialAssembleAction::cancelChildFinishReplay()
+{
+    if (child_finish_run_id_ != 0) {
+        loop_.cancel(child_finish_run_id_);
+        child_finish_run_id_ = 0;
     }
 }
 
@@ -125,7 +139,8 @@ void SerialAssembleAction::onResume()
         curr_action_->resume();
 
     } else if (child_finish_func_) {
-        loop_.runNext(std::move(child_finish_func_));
+        cancelChildFinishReplay();
+        child_finish_run_id_ = loop_.runNext(std::move(child_finish_func_));
 
     } else {
         LogWarn("%d:%s[%s] can't resume", id(), type().c_str(), label().c_str());
@@ -136,6 +151,7 @@ void SerialAssembleAction::onStop()
 {
     stopCurrAction();
     child_finish_func_ = nullptr;
+    cancelChildFinishReplay();
 
     AssembleAction::onStop();
 }
@@ -144,6 +160,7 @@ void SerialAssembleAction::onReset()
 {
     curr_action_ = nullptr;
     child_finish_func_ = nullptr;
+    cancelChildFinishReplay();
 
     AssembleAction::onReset();
 }
